@@ -15,4 +15,7 @@ Strip(item) == [item EXCEPT !.attrs = StripAttrs(item.attrs),
 Transparent(obs) ==
     /\ obs.twin_compiles = obs.annotated_compiles            \* compiles exactly when the un-annotated program does
     /\ obs.twin_compiles => (obs.same_json /\ obs.same_size)  \* same serialised form, same layout
+    \* same other attributes: what a derive macro placed after #[typeshare] is handed (every attribute of the item, its fields and
+    \* variants, in source order) is what it is handed for the twin Strip(item)
+    /\ obs.twin_compiles => obs.same_attrs
 =============================================================================
